@@ -5,6 +5,15 @@ import (
 	"github.com/MichaelMure/git-bug/zzverif/vrepo"
 )
 
+// vhSwapParents lets 2-parent commits list their parents in either order.
+var vhSwapParents = false
+
+// vhMut applies one structural mutation to an otherwise produced-shape history
+// (valid mode only): 1 = commit pos becomes an additional root, 2 = the root pos has no
+// creation clock, 3 = the merge commit pos carries an operation, 4 = the pack of pos is
+// undecodable. Clock values are symbolic and unconstrained in any case.
+var vhMut struct{ kind, pos int }
+
 // vhGenDag builds a symbolic commit table of n commits. In valid mode the shape obeys
 // what Commit/merge produce (one root, 1..2 parents, merges empty); clock values are
 // symbolic in both modes and constrained by the caller.
@@ -19,6 +28,13 @@ func vhGenDag(n int, hostile bool, maxParents int) *vhDag {
 		} else {
 			ps = vhChooseParents(i, 1, 2)
 		}
+		if vhSwapParents && len(ps) == 2 && rt.Choose(2) == 1 {
+			ps[0], ps[1] = ps[1], ps[0]
+		}
+		mutHere := !hostile && vhMut.kind != 0 && vhMut.pos == i
+		if mutHere && vhMut.kind == 1 {
+			ps = nil
+		}
 		edit := rt.NondetUint64()
 		create := uint64(0)
 		hasCreate := false
@@ -28,6 +44,12 @@ func vhGenDag(n int, hostile bool, maxParents int) *vhDag {
 		}
 		if hostile && len(ps) == 0 && rt.Choose(2) == 1 {
 			hasCreate = false // root without a creation clock
+		}
+		if mutHere && vhMut.kind == 2 {
+			if len(ps) != 0 {
+				rt.Assume(false)
+			}
+			hasCreate = false
 		}
 		author := vhAuthors[0]
 		var ops []Operation
@@ -40,12 +62,20 @@ func vhGenDag(n int, hostile bool, maxParents int) *vhDag {
 			if hostile && rt.Choose(2) == 1 {
 				nops = 1 // merge commit carrying an operation
 			}
+			if mutHere && vhMut.kind == 3 {
+				nops = 1
+			}
+		} else if mutHere && vhMut.kind == 3 {
+			rt.Assume(false)
 		}
 		for k := 0; k < nops; k++ {
 			ops = append(ops, vhNewOp(nop, author))
 			nop++
 		}
 		d.vhAddCommit(ps, edit, create, hasCreate, ops, author)
+		if mutHere && vhMut.kind == 4 {
+			d.pack[i].bad = true
+		}
 	}
 	return d
 }
